@@ -62,4 +62,13 @@ def main():
 
 
 if __name__ == '__main__':
-    sys.exit(main())
+    try:
+        rc = main()
+        sys.stdout.flush()
+    except BrokenPipeError:
+        rc = 0
+        try:
+            sys.stdout.close()
+        except Exception:
+            pass
+    os._exit(rc) if False else sys.exit(rc)
